@@ -31,7 +31,7 @@ RULE = ('one evaluation = one sampled cache (Cache or FanoutCache shards; 4-14 i
         'remaining item is read back and compared; non-trivial = at least one damage item applied; distinct = SHA-256 of (cache '
         'program, damage list)')
 ASSUMPTIONS = ['damage is applied while no operation is in flight', 'truncation of text happens on a code-point boundary and extension appends ASCII, except in the low-rate probe of known finding F14']
-PROBES = ('damage_items', 'fanout_runs', 'rows_removed_by_fix', 'f14_probe', 'dir_spelled_dot', 'dir_spelled_double', 'dir_spelled_trailing', 'dir_spelled_dotdot', 'dir_spelled_relative', 'more_than_100_file_rows')
+PROBES = ('damage_items', 'fanout_runs', 'rows_removed_by_fix', 'f14_probe', 'dir_spelled_dot', 'dir_spelled_double', 'dir_spelled_trailing', 'dir_spelled_dotdot', 'dir_spelled_relative', 'more_than_100_file_rows', 'journal_mode_not_wal')
 TECHNIQUE = 'deterministic simulation with out-of-band damage injection: damage-kind subsets enumerated per sampled cache; report / convergence / undamaged-intact oracle with an independent auditor'
 LEVEL_TEXT = ('fault enumeration over damage-kind subsets: caches are sampled by seed, and for each cache every non-empty subset of the '
               'seven damage kinds is applied (thorough tier); the oracle knows exactly what it damaged and compares the two warning lists per '
@@ -69,6 +69,8 @@ def gen_case(seed, tier):
         rng.shuffle(items)
         fanout = False
     cfg = {'fanout': fanout, 'shards': rng.choice((2, 3)), 'mfs': mfs, 'f14': rng.random() < 0.03, 'many': len(items) > 100,
+           # SQLite keeps other files next to cache.db under the other (documented) journal modes
+           'journal': rng.choice(('wal', 'wal', 'wal', 'truncate', 'persist', 'delete')),
            # how the caller spells the directory: check() compares paths it builds from rows with paths it finds by walking
            'dirform': rng.choice(('plain', 'plain', 'plain', 'dot', 'double', 'trailing', 'dotdot', 'relative', 'relative-dot'))}
     return {'seed': seed, 'cfg': cfg, 'items': items, 'damage': []}
@@ -112,12 +114,16 @@ def run_case(case):
         form = cfg.get('dirform', 'plain')
         if form != 'plain':
             probes['dir_spelled_' + form.split('-')[0]] = 1
+        jkw = {}
+        if cfg.get('journal', 'wal') != 'wal':
+            jkw = {'sqlite_journal_mode': cfg['journal']}
+            probes['journal_mode_not_wal'] = 1
         if cfg['fanout']:
-            top = dc.FanoutCache(spelled(world, 'f', form), shards=cfg['shards'], disk_min_file_size=cfg['mfs'])
+            top = dc.FanoutCache(spelled(world, 'f', form), shards=cfg['shards'], disk_min_file_size=cfg['mfs'], **jkw)
             caches = list(top._shards)
             probes['fanout_runs'] = 1
         else:
-            top = dc.Cache(spelled(world, 'c', form), disk_min_file_size=cfg['mfs'])
+            top = dc.Cache(spelled(world, 'c', form), disk_min_file_size=cfg['mfs'], **jkw)
             caches = [top]
         expected = {}
         for it in case['items']:
